@@ -282,7 +282,23 @@ def search(res, tier, boost=False):
             e = dmax * dmax / (2 * zmax)
             return 0.0 if e > 650 else delta * hx * math.exp(-e) / (4 * math.pi * zmax)
 
-        for tr in rng.sample(elems, min(6 if tier == 'quick' else 10, len(elems))):
+        # plus elements very thin in time (time level 10..16) - the value long after such an element has ended is tiny
+        # against the terms it is computed from, but far above the underflow range and strictly positive
+        from ..slchecks import StubElem, addr_interval
+        thin = []
+        for _ in range(3 if tier == 'quick' else 8):
+            pc = rng.randrange(len(gamma.pw_gamma))
+            lt = rng.randint(10, 16)
+            plen = float(gamma.pw_start[pc + 1] - gamma.pw_start[pc])
+            lx = 0
+            while (plen * 2.0**-lx)**2 * 2.0**lt > 16:
+                lx += 1
+            if len(gamma.pw_gamma) == 1:
+                lx = max(lx, 2)
+            kt = rng.choice([0, 1, rng.randrange(2**lt)])
+            thin.append(StubElem((kt * 2.0**-lt, (kt + 1) * 2.0**-lt), addr_interval(gamma, (pc, lx, rng.randrange(2**lx))), gamma.pw_gamma[pc]))
+        SL._init_elems(thin)
+        for tr in rng.sample(elems, min(6 if tier == 'quick' else 10, len(elems))) + thin:
             t0, t1 = float(tr.time_interval[0]), float(tr.time_interval[1])
             x0, x1 = float(tr.space_interval[0]), float(tr.space_interval[1])
             ht = t1 - t0
@@ -298,7 +314,10 @@ def search(res, tier, boost=False):
                     # upper bound of the distance from x to a point of the element: distance to a sampled point + element length
                     dmax = float(np.max(np.sqrt(np.sum((ys - x)**2, axis=0)))) + (x1 - x0)
                     ref_lb = lower_bound(dmax, t, t0, t1, x1 - x0)
-                    v = float(SL.evaluate(tr, t, xh, x))
+                    try:
+                        v = float(SL.evaluate(tr, t, xh, x))
+                    except AssertionError:
+                        continue      # point closer than 1e-5 to an end point from inside: documented precondition of the rules
                     res.count(('ptsign', 'evaluate', cname, mi, t, xh), True)
                     if v < -tol or math.isnan(v):
                         flag('C04:evaluate-negative', dict(curve=cname, trial=describe(tr), t=float(t), x_hat=float(xh), value=v, tol=tol))
